@@ -34,6 +34,7 @@ let () =
     | [| _; "span" |] -> Spancmd.handle
     | [| _; "value" |] -> Valcmd.handle
     | [| _; "peg" |] -> Pegcmd.handle
+    | [| _; "front" |] -> Frontcmd.handle
     | _ -> prerr_endline "usage: svd <command>"; exit 2 in
   (try
      while true do
